@@ -529,6 +529,9 @@ pub struct Hold {
     /// 0 = never reached, 1 = quiescence reached, 2 = capped
     pub outcome: AtomicU8,
     pub at_gate: Gate,
+    /// a second system (another group of the target's stage) that stays inside `run` for a few
+    /// milliseconds: two long-running groups that end at different times
+    pub stagger: Option<(u32, Duration)>,
 }
 impl Hold {
     pub fn new(ctx: &Ctx, target: u32, waits_for: Vec<u32>, grace: Duration, cap: Duration) -> Hold {
@@ -542,11 +545,18 @@ impl Hold {
             fired: AtomicBool::new(false),
             outcome: AtomicU8::new(0),
             at_gate: Gate::PostRun,
+            stagger: None,
         }
     }
 }
 impl Driver for Hold {
     fn gate(&self, ctx: &Ctx, uid: u32, g: Gate) {
+        if let Some((y, d)) = self.stagger {
+            if uid == y && g == Gate::PostRun {
+                std::thread::sleep(d);
+                return;
+            }
+        }
         if uid != self.target || g != self.at_gate {
             return;
         }
